@@ -6,6 +6,8 @@
 //!       for k in 0..K: DIR/case_k/font.json (abstract input), built.json (dump of the built
 //!       value), n.ufo (Font::save_with_options, options drawn per case -> options.json),
 //!       loaded.json (dump of Font::load); *_error.txt where a step failed.
+//!   harness c05 --out DIR --font FILE
+//!       the same for the single abstract font stored in FILE (case_0).
 //!   harness c05 --load DIR
 //!       for every DIR/case_*/w.ufo: loaded.json = dump of Font::load (or load_error.txt).
 //!   harness c05 --dump UFO --to FILE
@@ -64,7 +66,10 @@ pub fn main(a: &Args) {
         return;
     }
 
-    let count: u64 = opt(a, "--count").and_then(|s| s.parse().ok()).unwrap_or(if a.thorough() { 2000 } else { 200 });
+    let given: Option<J> = opt(a, "--font").map(|f| {
+        serde_json::from_str(&std::fs::read_to_string(f).expect("cannot read --font file")).expect("--font file is not JSON")
+    });
+    let count: u64 = if given.is_some() { 1 } else { opt(a, "--count").and_then(|s| s.parse().ok()).unwrap_or(if a.thorough() { 2000 } else { 200 }) };
     let fixed_size: Option<u32> = opt(a, "--size").and_then(|s| s.parse().ok());
     let classes: Vec<String> = opt(a, "--gen").map(|s| s.split(',').map(|x| x.to_string()).collect()).unwrap_or_default();
     let gopts = fontio_gen::GenOpts::from_names(&classes);
@@ -76,7 +81,10 @@ pub fn main(a: &Args) {
         let dir = a.out.join(format!("case_{}", k));
         std::fs::create_dir_all(&dir).unwrap();
         let size = fixed_size.unwrap_or_else(|| rng.below(3) as u32);
-        let font_json = fontio_gen::gen_font_with(&mut rng, size, &gopts);
+        let font_json = match &given {
+            Some(j) => j.clone(),
+            None => fontio_gen::gen_font_with(&mut rng, size, &gopts),
+        };
         write_file(&dir.join("font.json"), &pretty(&font_json));
         let (ic, iw, q) = (rng.below(2), rng.below(9), rng.below(2));
         let mut status = "ok";
